@@ -71,6 +71,10 @@ add("C13", "exploration", "runtime monitoring: version() of every registered fun
     "Event sequences mixing redefinitions, rebinding/mutation of variables, alias re-binding, late-defined symbols, memento/plain switches, modifier clones and unregistered wrappers, with interleaved subset queries; after every event the running process's versions are compared with a from-scratch computation in a fresh child.",
     "The oracle child executes the base files with superseded definitions cut out plus the surviving cells (same pseudo-filenames), i.e. the code's own from-scratch computation; clones/wrappers are judged only at creation.", "DESIGN.md §4 C13")
 
+add("C14", "exploration", "runtime monitoring: reported transitive/direct dependency sets and dependency-graph edges of every memento function in exhaustively enumerated reference graphs (one pristine child each), and outcomes of hidden dynamic calls, against graph reachability",
+    "All 2048 three-node graphs (all subsets of edges incl. self-loops and cycles, all kind assignments) in the bare-name form in the quick tier, all four reference forms plus four-node graphs in the thorough tier; random two-module programs with hidden globals() calls are executed and must raise the undeclared-dependency error exactly when an executed hidden call leaves the caller's static closure; functions passed as arguments (bare, list, dict, nested) must be callable.",
+    "Reachability on the generated graph data is the oracle; non-memento rules are ignored; small scopes are enumerated completely.", "DESIGN.md §4 C14")
+
 NOT_BUILT = "check not built yet in this round (design in DESIGN.md §4); will be claimed once its monitor exists"
 
 
